@@ -83,6 +83,9 @@ def handle : List String → String
   | ["decfacts", b] => match b.toNat? with
     | some b => if decide (DecFacts b) then "ok" else "fail"
     | _ => "bad-request"
+  | ["hexfacts", b] => match b.toNat? with
+    | some b => if decide (HexFacts b) then "ok" else "fail"
+    | _ => "bad-request"
   -- reference definitions (Spec), validated against CPython
   | ["pyrepr", b] => match b.toNat? with
     | some b => txt (Spec.pyRepr b)
